@@ -6,7 +6,7 @@ from .. import core
 from .. import world as W
 
 ID = 'C05'
-TIERS = {'quick': {'seeds': 15000, 'seconds': 75, 'determinism': 48},
+TIERS = {'quick': {'seeds': 15000, 'seconds': 45, 'determinism': 48},
          'thorough': {'seconds': 900, 'determinism': 512, 'minimise_s': 120}}
 RULE = ('seeded worlds (layer DAG <= 5, <= 12 tests, every outcome kind via injected exceptions at '
         'setUp/body/subTest/tearDown/cleanup, --repeat, --shuffle, some -j) run under the real '
